@@ -16,6 +16,7 @@ import (
 	"path/filepath"
 	"runtime/debug"
 	"strings"
+	"sync"
 	"time"
 )
 
@@ -36,6 +37,8 @@ type Run struct {
 	Trace   []string // readable event log of this execution
 	pruned  bool
 	noPrune bool
+	later   *Failure
+	laterMu sync.Mutex
 	// Budget is the deviation bound of the exploration that owns the run.
 	Budget int
 }
@@ -154,6 +157,28 @@ type Failure struct {
 	Message   string
 }
 
+// FailLater records a violation without unwinding (for code that runs on a
+// goroutine other than the body's, e.g. store hooks called from worker
+// goroutines). The first recorded violation is raised by Raise, or when the
+// body returns.
+func (r *Run) FailLater(signature, format string, a ...any) {
+	r.laterMu.Lock()
+	defer r.laterMu.Unlock()
+	if r.later == nil {
+		r.later = &Failure{Signature: signature, Message: fmt.Sprintf(format, a...)}
+	}
+}
+
+// Raise panics with the violation recorded by FailLater, if any.
+func (r *Run) Raise() {
+	r.laterMu.Lock()
+	f := r.later
+	r.laterMu.Unlock()
+	if f != nil {
+		panic(*f)
+	}
+}
+
 // Failf reports a violation of the property in this execution and stops it.
 func (r *Run) Failf(signature, format string, a ...any) {
 	panic(Failure{Signature: signature, Message: fmt.Sprintf(format, a...)})
@@ -226,6 +251,7 @@ func (e *Explorer) exec(prefix []int, noPrune ...bool) (out outcome) {
 			}
 		}()
 		e.Body(r)
+		r.Raise()
 	}
 	if e.Wrap != nil {
 		e.Wrap(body)
